@@ -240,6 +240,11 @@ static int process_completed_fragment(sqfs_block_processor_t *proc,
 
 		if (proc->fblk_lookup_error != 0) {
 			err = proc->fblk_lookup_error;
+
+			/* a compare failed, but the insert may still have gone
+			   through: the table owns the chunk then */
+			if (entry != NULL)
+				chunk = NULL;
 			goto fail;
 		}
 
